@@ -102,3 +102,527 @@ Qed.
 (* the order forbids 1- and 2-cycles directly, and any cycle by transitivity/irreflexivity *)
 Lemma key_lt_irrefl : forall r a, ~ key_lt r a r a.
 Proof. unfold key_lt. intros. lia. Qed.
+
+(* ====================================================================
+   Sequential model of DisjointSets (what one thread executes when no CAS
+   fails): findImpl with path halving, unite with union by (rank, smaller id).
+   Extracted and compared word-for-word (rank, parent of every element) with
+   the implementation run by one thread, and partition-for-partition with the
+   concurrent runs (harness/c13_uf.cpp). *)
+Fixpoint ufind (fuel : nat) (st : uf_state) (id : nat) : option (uf_state * nat) :=
+  match fuel with
+  | O => None
+  | S fu =>
+    let '(r, p) := uget st id in
+    if p =? id then Some (st, id)
+    else let np := uparent st p in
+         (* if (value != new_value) mData[id].compare_exchange_weak(value, new_value) *)
+         let st' := if np =? p then st else set_nth id (r, np) st in
+         ufind fu st' np
+  end.
+
+Definition uunite (fuel : nat) (st : uf_state) (a b : nat) : option uf_state :=
+  match ufind fuel st a with
+  | None => None
+  | Some (st1, i1) =>
+    match ufind fuel st1 b with
+    | None => None
+    | Some (st2, i2) =>
+      if i1 =? i2 then Some st2
+      else
+        let r1 := urank st2 i1 in
+        let r2 := urank st2 i2 in
+        (* if (r1 > r2 || (r1 == r2 && id1 < id2)) swap *)
+        let '(c, rc, pr, rp) := if (r2 <? r1) || ((r1 =? r2) && (i1 <? i2)) then (i2, r2, i1, r1) else (i1, r1, i2, r2) in
+        let st3 := set_nth c (rc, pr) st2 in
+        Some (if rc =? rp then set_nth pr (S rp, pr) st3 else st3)
+    end
+  end.
+
+Definition uf_init (n : nat) : uf_state := map (fun i => (0, i)) (seq 0 n).
+
+Fixpoint uf_run (fuel : nat) (st : uf_state) (pairs : list (nat * nat)) : option uf_state :=
+  match pairs with
+  | [] => Some st
+  | (a, b) :: rest => match uunite fuel st a b with Some st' => uf_run fuel st' rest | None => None end
+  end.
+Definition uf_run_seq (n : nat) (pairs : list (nat * nat)) : option uf_state := uf_run (S n) (uf_init n) pairs.
+
+(* r is the root reached from i along parent pointers *)
+Inductive root_of (st : uf_state) : nat -> nat -> Prop :=
+| RO_root : forall i, i < length st -> uparent st i = i -> root_of st i i
+| RO_step : forall i r, i < length st -> uparent st i <> i -> root_of st (uparent st i) r -> root_of st i r.
+
+Definition total (st : uf_state) : Prop := forall i, i < length st -> exists r, root_of st i r.
+Definition same (st : uf_state) (a b : nat) : Prop := exists r, root_of st a r /\ root_of st b r.
+
+(* the equivalence closure of the united pairs *)
+Inductive uf_equiv (n : nat) (pairs : list (nat * nat)) : nat -> nat -> Prop :=
+| EQ_refl : forall a, a < n -> uf_equiv n pairs a a
+| EQ_pair : forall a b, In (a, b) pairs -> uf_equiv n pairs a b
+| EQ_sym : forall a b, uf_equiv n pairs a b -> uf_equiv n pairs b a
+| EQ_trans : forall a b c, uf_equiv n pairs a b -> uf_equiv n pairs b c -> uf_equiv n pairs a c.
+
+Lemma root_of_fun : forall st i r, root_of st i r -> forall r', root_of st i r' -> r = r'.
+Proof.
+  intros st i r H. induction H as [i Hi Hp|i r Hi Hp H IH]; intros r' H'.
+  - inversion H'; subst; auto. congruence.
+  - inversion H'; subst; [congruence| auto].
+Qed.
+
+Lemma root_of_is_root : forall st i r, root_of st i r -> r < length st /\ uparent st r = r.
+Proof. intros st i r H. induction H; auto. Qed.
+
+Lemma root_of_lt : forall st i r, root_of st i r -> i < length st.
+Proof. intros st i r H. destruct H; auto. Qed.
+
+Lemma root_of_parent : forall st i x, root_of st i x -> uparent st i <> i -> root_of st (uparent st i) x.
+Proof. intros st i x H Hn. inversion H; subst; [congruence| assumption]. Qed.
+
+Lemma uparent_set : forall st b x i, b < length st ->
+    uparent (set_nth b x st) i = if i =? b then snd x else uparent st i.
+Proof. intros. unfold uparent. rewrite uget_set by auto. destruct (i =? b); reflexivity. Qed.
+Lemma urank_set : forall st b x i, b < length st ->
+    urank (set_nth b x st) i = if i =? b then fst x else urank st i.
+Proof. intros. unfold urank. rewrite uget_set by auto. destruct (i =? b); reflexivity. Qed.
+
+(* path halving keeps every root *)
+Lemma halve_keeps_roots : forall st id r0 p,
+    ord_inv st -> id < length st -> uget st id = (r0, p) -> p <> id -> uparent st p <> p ->
+    forall i r, root_of st i r -> root_of (set_nth id (r0, uparent st p) st) i r.
+Proof.
+  intros st id r0 p Hinv Hid Hg Hpid Hnp i r H.
+  set (np := uparent st p). set (st' := set_nth id (r0, np) st).
+  assert (Hlen : length st' = length st) by (subst st'; apply length_set_nth; auto).
+  assert (Hpar : uparent st id = p) by (unfold uparent; rewrite Hg; reflexivity).
+  assert (Hrk : urank st id = r0) by (unfold urank; rewrite Hg; reflexivity).
+  destruct (Hinv id Hid) as [Hplt Hk1]; [rewrite Hpar; auto|]. rewrite Hpar in Hplt, Hk1.
+  destruct (Hinv p Hplt Hnp) as [Hnplt Hk2]. fold np in Hnplt, Hk2.
+  assert (Hnpid : np <> id).
+  { intros E. rewrite E in Hk2. pose proof (key_lt_trans _ _ _ _ _ _ Hk1 Hk2) as K. apply key_lt_irrefl in K. exact K. }
+  induction H as [i Hi Hp|i r Hi Hp H IH].
+  - assert (i <> id) by (intros ->; congruence).
+    apply RO_root; [lia|]. subst st'. rewrite uparent_set by auto.
+    destruct (i =? id) eqn:E; [apply Nat.eqb_eq in E; congruence| auto].
+  - destruct (Nat.eq_dec i id) as [->|Hne].
+    + rewrite Hpar in IH.
+      assert (Hp' : uparent st' p = np).
+      { subst st'. rewrite uparent_set by auto. destruct (p =? id) eqn:E; [apply Nat.eqb_eq in E; congruence| reflexivity]. }
+      assert (Hroot_np : root_of st' np r).
+      { inversion IH as [? ? Hpp|? ? ? Hpp Hsub]; subst.
+        - rewrite Hp' in Hpp. unfold np in Hpp. congruence.
+        - rewrite Hp' in Hsub. exact Hsub. }
+      apply RO_step; [lia| |].
+      * subst st'. rewrite uparent_set by auto. rewrite Nat.eqb_refl. cbn [snd]. auto.
+      * subst st'. rewrite uparent_set by auto. rewrite Nat.eqb_refl. cbn [snd]. exact Hroot_np.
+    + assert (Hpi : uparent st' i = uparent st i).
+      { subst st'. rewrite uparent_set by auto. destruct (i =? id) eqn:E; [apply Nat.eqb_eq in E; congruence| reflexivity]. }
+      apply RO_step; [lia| rewrite Hpi; auto| rewrite Hpi; exact IH].
+Qed.
+
+Lemma same_parents_keep_roots : forall st st', length st' = length st -> (forall i, uparent st' i = uparent st i) ->
+    forall i r, root_of st i r -> root_of st' i r.
+Proof.
+  intros st st' HL HP i r H. induction H as [i Hi Hp|i r Hi Hp H IH].
+  - apply RO_root; [lia| rewrite HP; auto].
+  - apply RO_step; [lia| rewrite HP; auto| rewrite HP; auto].
+Qed.
+
+(* linking root c under root pr *)
+Lemma link_roots : forall st c rc pr,
+    c < length st -> pr < length st -> c <> pr -> uparent st c = c -> uparent st pr = pr ->
+    forall i r, root_of st i r -> root_of (set_nth c (rc, pr) st) i (if r =? c then pr else r).
+Proof.
+  intros st c rc pr Hc Hpr Hne Hrc Hrp i r H.
+  set (st' := set_nth c (rc, pr) st).
+  assert (Hlen : length st' = length st) by (subst st'; apply length_set_nth; auto).
+  assert (Hpr' : root_of st' pr pr).
+  { apply RO_root; [lia|]. subst st'. rewrite uparent_set by auto.
+    destruct (pr =? c) eqn:E; [apply Nat.eqb_eq in E; congruence| auto]. }
+  induction H as [i Hi Hp|i r Hi Hp H IH].
+  - destruct (i =? c) eqn:E.
+    + apply Nat.eqb_eq in E. subst i. apply RO_step; [lia| |].
+      * subst st'. rewrite uparent_set by auto. rewrite Nat.eqb_refl. cbn [snd]. auto.
+      * subst st'. rewrite uparent_set by auto. rewrite Nat.eqb_refl. cbn [snd]. exact Hpr'.
+    + apply RO_root; [lia|]. subst st'. rewrite uparent_set by auto. rewrite E. auto.
+  - assert (i <> c) by (intros ->; congruence).
+    assert (Hpi : uparent st' i = uparent st i).
+    { subst st'. rewrite uparent_set by auto. destruct (i =? c) eqn:E; [apply Nat.eqb_eq in E; congruence| reflexivity]. }
+    apply RO_step; [lia| rewrite Hpi; auto| rewrite Hpi; exact IH].
+Qed.
+
+(* findImpl: what it guarantees when it returns *)
+Lemma ufind_spec : forall fuel st id st' r,
+    ord_inv st -> id < length st -> (exists x, root_of st id x) ->
+    ufind fuel st id = Some (st', r) ->
+    length st' = length st /\ ord_inv st' /\
+    (forall i x, root_of st i x -> root_of st' i x) /\ root_of st' id r /\
+    (forall i, urank st' i = urank st i).
+Proof.
+  induction fuel as [|fu IH]; intros st id st' r Hinv Hid [x Hx] Hrun; [discriminate|].
+  cbn [ufind] in Hrun. destruct (uget st id) as [r0 p] eqn:Hg.
+  assert (Hpar : uparent st id = p) by (unfold uparent; rewrite Hg; reflexivity).
+  destruct (p =? id) eqn:Ep.
+  - apply Nat.eqb_eq in Ep. injection Hrun as <- <-.
+    split; [reflexivity|]. split; [exact Hinv|]. split; [auto|]. split; [|auto].
+    apply RO_root; auto. congruence.
+  - apply Nat.eqb_neq in Ep.
+    destruct (Hinv id Hid) as [Hplt Hk1]; [rewrite Hpar; auto|]. rewrite Hpar in Hplt, Hk1.
+    (* x is also the root of p and of parent(p) *)
+    assert (Hxp : root_of st p x).
+    { rewrite <- Hpar. apply root_of_parent; auto. rewrite Hpar; auto. }
+    set (np := uparent st p) in *.
+    destruct (np =? p) eqn:Enp.
+    + apply Nat.eqb_eq in Enp. rewrite Enp in Hrun.
+      destruct (IH st p st' r Hinv Hplt (ex_intro _ x Hxp) Hrun) as (HL & HI & HK & HR & HRk).
+      split; [exact HL|]. split; [exact HI|]. split; [exact HK|]. split; [|exact HRk].
+      pose proof (HK _ _ Hx) as Hx'. pose proof (HK _ _ Hxp) as Hxp'.
+      rewrite (root_of_fun _ _ _ HR _ Hxp'). exact Hx'.
+    + apply Nat.eqb_neq in Enp.
+      assert (Hnp : uparent st p <> p) by (fold np; auto).
+      destruct (Hinv p Hplt Hnp) as [Hnplt Hk2]. fold np in Hnplt, Hk2.
+      assert (Hxnp : root_of st np x).
+      { apply root_of_parent; auto. }
+      set (st1 := set_nth id (r0, np) st) in *.
+      assert (Hinv1 : ord_inv st1).
+      { apply (uf_step_preserves_order st); auto. apply StepHalve with (p := p); auto. }
+      assert (HL1 : length st1 = length st) by (subst st1; apply length_set_nth; auto).
+      assert (HK1 : forall i y, root_of st i y -> root_of st1 i y).
+      { intros i y Hy. subst st1 np. apply halve_keeps_roots with (p := p); auto. }
+      destruct (IH st1 np st' r Hinv1) as (HL & HI & HK & HR & HRk); auto; [lia| eexists; apply HK1; eauto|].
+      split; [lia|]. split; [exact HI|]. split; [intros i y Hy; apply HK, HK1; exact Hy|]. split.
+      * pose proof (HK _ _ (HK1 _ _ Hx)) as Hx'. pose proof (HK _ _ (HK1 _ _ Hxnp)) as Hxnp'.
+        rewrite (root_of_fun _ _ _ HR _ Hxnp'). exact Hx'.
+      * intros i. rewrite HRk. subst st1. rewrite urank_set by auto.
+        destruct (i =? id) eqn:E; [apply Nat.eqb_eq in E; subst; cbn [fst]; unfold urank; rewrite Hg; reflexivity| reflexivity].
+Qed.
+
+Definition gmap (c pr r : nat) : nat := if r =? c then pr else r.
+
+(* unite: every root is kept, except that the two operands' roots are merged *)
+Lemma uunite_spec : forall fuel st a b st',
+    ord_inv st -> total st -> a < length st -> b < length st ->
+    uunite fuel st a b = Some st' ->
+    length st' = length st /\ ord_inv st' /\
+    exists ra rb c pr, root_of st a ra /\ root_of st b rb /\
+      ((c = ra /\ pr = rb) \/ (c = rb /\ pr = ra)) /\
+      forall i x, root_of st i x -> root_of st' i (gmap c pr x).
+Proof.
+  intros fuel st a b st' Hinv Htot Ha Hb Hrun. unfold uunite in Hrun.
+  destruct (ufind fuel st a) as [[st1 i1]|] eqn:F1; [|discriminate].
+  destruct (ufind_spec _ _ _ _ _ Hinv Ha (Htot a Ha) F1) as (L1 & I1 & K1 & R1 & Rk1).
+  destruct (ufind fuel st1 b) as [[st2 i2]|] eqn:F2; [|discriminate].
+  assert (Hb1 : b < length st1) by lia.
+  destruct (Htot b Hb) as [xb Hxb].
+  destruct (ufind_spec _ _ _ _ _ I1 Hb1 (ex_intro _ xb (K1 _ _ Hxb)) F2) as (L2 & I2 & K2 & R2 & Rk2).
+  destruct (Htot a Ha) as [xa Hxa].
+  (* the roots found are the roots in the original state *)
+  assert (Ea : i1 = xa) by (apply (root_of_fun _ _ _ R1 _ (K1 _ _ Hxa))).
+  assert (Eb : i2 = xb) by (apply (root_of_fun _ _ _ R2 _ (K2 _ _ (K1 _ _ Hxb)))).
+  subst i1 i2.
+  assert (Ra2 : root_of st2 a xa) by (apply K2; exact R1).
+  destruct (root_of_is_root _ _ _ Ra2) as [Hxa_lt Hxa_root].
+  destruct (root_of_is_root _ _ _ R2) as [Hxb_lt Hxb_root].
+  destruct (xa =? xb) eqn:E.
+  - apply Nat.eqb_eq in E. subst xb. injection Hrun as <-. split; [lia|]. split; auto.
+    exists xa, xa, xa, xa. repeat split; auto.
+    intros i x Hx. unfold gmap. destruct (x =? xa) eqn:E2; [apply Nat.eqb_eq in E2; subst x|]; apply K2, K1; auto.
+  - apply Nat.eqb_neq in E.
+    set (r1 := urank st2 xa) in *. set (r2 := urank st2 xb) in *.
+    destruct ((r2 <? r1) || ((r1 =? r2) && (xa <? xb))) eqn:Sw.
+    + (* child xb (rank r2) under xa (rank r1) *)
+      assert (Hk : key_lt r2 xb r1 xa).
+      { apply orb_true_iff in Sw. destruct Sw as [S|S]; [apply Nat.ltb_lt in S; left; auto|].
+        apply andb_true_iff in S. destruct S as [S1 S2]. apply Nat.eqb_eq in S1. apply Nat.ltb_lt in S2. right. lia. }
+      assert (Hg : uget st2 xb = (r2, xb)).
+      { unfold uparent, urank in *. destruct (uget st2 xb) as [q1 q2]. cbn in *. subst r2. congruence. }
+      set (st3 := set_nth xb (r2, xa) st2) in *.
+      assert (I3 : ord_inv st3).
+      { apply (uf_step_preserves_order st2); auto. apply StepLink; auto. }
+      assert (L3 : length st3 = length st2) by (subst st3; apply length_set_nth; auto).
+      assert (K3 : forall i x, root_of st i x -> root_of st3 i (gmap xb xa x)).
+      { intros i x Hx. subst st3. apply link_roots; auto. }
+      destruct (r2 =? r1) eqn:Er.
+      * apply Nat.eqb_eq in Er. injection Hrun as <-.
+        assert (Hg3 : uget st3 xa = (r1, xa)).
+        { subst st3. rewrite uget_set by auto. destruct (xa =? xb) eqn:E3; [apply Nat.eqb_eq in E3; congruence|].
+          unfold uparent, urank in *. destruct (uget st2 xa) as [q1 q2]. cbn in *. subst r1. congruence. }
+        split; [rewrite length_set_nth by lia; lia|]. split.
+        { apply (uf_step_preserves_order st3); auto. apply StepBump; auto. lia. }
+        exists xa, xb, xb, xa. repeat split; auto.
+        intros i x Hx. apply same_parents_keep_roots with (st := st3); auto.
+        -- apply length_set_nth. lia.
+        -- intros j. rewrite uparent_set by lia. destruct (j =? xa) eqn:E4; [apply Nat.eqb_eq in E4; subst; cbn [snd];
+             unfold uparent; rewrite Hg3; reflexivity| reflexivity].
+      * injection Hrun as <-. split; [lia|]. split; auto.
+        exists xa, xb, xb, xa. repeat split; auto.
+    + (* child xa under xb *)
+      assert (Hk : key_lt r1 xa r2 xb).
+      { apply orb_false_iff in Sw. destruct Sw as [S1 S2]. apply Nat.ltb_ge in S1.
+        apply andb_false_iff in S2. destruct S2 as [S2|S2]; [apply Nat.eqb_neq in S2; left; lia|].
+        apply Nat.ltb_ge in S2. destruct (Nat.eq_dec r1 r2); [right; lia| left; lia]. }
+      assert (Hg : uget st2 xa = (r1, xa)).
+      { unfold uparent, urank in *. destruct (uget st2 xa) as [q1 q2]. cbn in *. subst r1. congruence. }
+      set (st3 := set_nth xa (r1, xb) st2) in *.
+      assert (I3 : ord_inv st3).
+      { apply (uf_step_preserves_order st2); auto. apply StepLink; auto. }
+      assert (L3 : length st3 = length st2) by (subst st3; apply length_set_nth; auto).
+      assert (K3 : forall i x, root_of st i x -> root_of st3 i (gmap xa xb x)).
+      { intros i x Hx. subst st3. apply link_roots; auto. }
+      destruct (r1 =? r2) eqn:Er.
+      * apply Nat.eqb_eq in Er. injection Hrun as <-.
+        assert (Hg3 : uget st3 xb = (r2, xb)).
+        { subst st3. rewrite uget_set by auto. destruct (xb =? xa) eqn:E3; [apply Nat.eqb_eq in E3; congruence|].
+          unfold uparent, urank in *. destruct (uget st2 xb) as [q1 q2]. cbn in *. subst r2. congruence. }
+        split; [rewrite length_set_nth by lia; lia|]. split.
+        { apply (uf_step_preserves_order st3); auto. apply StepBump; auto. lia. }
+        exists xa, xb, xa, xb. repeat split; auto.
+        intros i x Hx. apply same_parents_keep_roots with (st := st3); auto.
+        -- apply length_set_nth. lia.
+        -- intros j. rewrite uparent_set by lia. destruct (j =? xb) eqn:E4; [apply Nat.eqb_eq in E4; subst; cbn [snd];
+             unfold uparent; rewrite Hg3; reflexivity| reflexivity].
+      * injection Hrun as <-. split; [lia|]. split; auto.
+        exists xa, xb, xa, xb. repeat split; auto.
+Qed.
+
+(* ------------------------------------------- final partition, sequential run *)
+Lemma same_sym : forall st a b, same st a b -> same st b a.
+Proof. intros st a b (r & H1 & H2). exists r; auto. Qed.
+Lemma same_trans : forall st a b c, same st a b -> same st b c -> same st a c.
+Proof.
+  intros st a b c (r & H1 & H2) (r' & H3 & H4). rewrite (root_of_fun _ _ _ H3 _ H2) in H4. exists r; auto.
+Qed.
+
+Lemma uf_equiv_weaken : forall n p1 p2 a b, (forall x, In x p1 -> In x p2) -> uf_equiv n p1 a b -> uf_equiv n p2 a b.
+Proof.
+  intros n p1 p2 a b Hin H. induction H; [apply EQ_refl; auto| apply EQ_pair; auto| apply EQ_sym; auto| eapply EQ_trans; eauto].
+Qed.
+
+Definition valid (n : nat) (pr : nat * nat) : Prop := fst pr < n /\ snd pr < n.
+Definition part_inv (n : nat) (st : uf_state) (done : list (nat * nat)) : Prop :=
+  forall x y, x < n -> y < n -> (same st x y <-> uf_equiv n done x y).
+
+Lemma unite_step_inv : forall n fuel st a b st' done,
+    length st = n -> ord_inv st -> total st -> a < n -> b < n -> Forall (valid n) done ->
+    part_inv n st done -> uunite fuel st a b = Some st' ->
+    length st' = n /\ ord_inv st' /\ total st' /\ part_inv n st' (done ++ [(a, b)]).
+Proof.
+  intros n fuel st a b st' done HL Hinv Htot Ha Hb Hval HP Hrun.
+  destruct (uunite_spec fuel st a b st' Hinv Htot) as (HL' & Hinv' & ra & rb & c & pr & Hra & Hrb & Hcp & HK); auto; try lia.
+  assert (Htot' : total st').
+  { intros i Hi. destruct (Htot i) as [r Hr]; [lia|]. exists (gmap c pr r). auto. }
+  assert (Hab' : same st' a b).
+  { assert (G : gmap c pr ra = pr /\ gmap c pr rb = pr).
+    { unfold gmap. destruct Hcp as [[-> ->]|[-> ->]]; rewrite Nat.eqb_refl; split; auto;
+        destruct (_ =? _) eqn:E; auto; apply Nat.eqb_eq in E; auto. }
+    destruct G as [G1 G2]. exists pr. split; [rewrite <- G1| rewrite <- G2]; auto. }
+  assert (Hkeep : forall x y, same st x y -> same st' x y).
+  { intros x y (r & H1 & H2). exists (gmap c pr r). auto. }
+  split; [lia|]. split; auto. split; auto.
+  intros x y Hx Hy. split.
+  - intros (r' & H1 & H2).
+    destruct (Htot x) as [rx Hrx]; [lia|]. destruct (Htot y) as [ry Hry]; [lia|].
+    pose proof (root_of_fun _ _ _ H1 _ (HK _ _ Hrx)) as E1. pose proof (root_of_fun _ _ _ H2 _ (HK _ _ Hry)) as E2.
+    assert (Hd : forall u v, same st u v -> u < n -> v < n -> uf_equiv n (done ++ [(a, b)]) u v).
+    { intros u v Huv Hu Hv. apply uf_equiv_weaken with (p1 := done); [intros; apply in_or_app; auto| apply HP; auto]. }
+    assert (Hpair : uf_equiv n (done ++ [(a, b)]) a b) by (apply EQ_pair, in_or_app; right; left; reflexivity).
+    unfold gmap in E1, E2.
+    assert (Hcase : rx = ry \/ (rx = ra /\ ry = rb) \/ (rx = rb /\ ry = ra)).
+    { destruct (rx =? c) eqn:C1; destruct (ry =? c) eqn:C2;
+        rewrite ?Nat.eqb_eq, ?Nat.eqb_neq in *; subst; destruct Hcp as [[-> ->]|[-> ->]]; auto. }
+    destruct Hcase as [->|[[-> ->]|[-> ->]]].
+    + apply Hd; auto. exists ry; auto.
+    + apply EQ_trans with a; [apply Hd; auto; exists ra; auto|].
+      apply EQ_trans with b; [exact Hpair| apply Hd; auto; exists rb; auto].
+    + apply EQ_trans with b; [apply Hd; auto; exists rb; auto|].
+      apply EQ_trans with a; [apply EQ_sym; exact Hpair| apply Hd; auto; exists ra; auto].
+  - intros H. clear Hx Hy. induction H as [u Hu|u v Hin|u v H IH|u v w H1 IH1 H2 IH2].
+    + destruct (Htot' u) as [r Hr]; [lia|]. exists r; auto.
+    + apply in_app_or in Hin. destruct Hin as [Hin|[Hin|[]]].
+      * rewrite Forall_forall in Hval. destruct (Hval _ Hin) as [Hu Hv]. cbn in Hu, Hv.
+        apply Hkeep. apply HP; auto. apply EQ_pair; auto.
+      * injection Hin as <- <-. exact Hab'.
+    + apply same_sym; auto.
+    + eapply same_trans; eauto.
+Qed.
+
+Lemma uf_run_inv : forall n fuel rest st done st',
+    length st = n -> ord_inv st -> total st -> Forall (valid n) done -> Forall (valid n) rest ->
+    part_inv n st done -> uf_run fuel st rest = Some st' ->
+    length st' = n /\ ord_inv st' /\ part_inv n st' (done ++ rest).
+Proof.
+  intros n fuel rest. induction rest as [|[a b] rest IH]; intros st done st' HL Hinv Htot Hvd Hvr HP Hrun.
+  - cbn in Hrun. injection Hrun as <-. rewrite app_nil_r. auto.
+  - cbn [uf_run] in Hrun. destruct (uunite fuel st a b) as [st1|] eqn:U; [|discriminate].
+    inversion Hvr as [|? ? [Ha Hb] Hvr']; subst. cbn in Ha, Hb.
+    destruct (unite_step_inv (length st) fuel st a b st1 done eq_refl Hinv Htot Ha Hb Hvd HP U) as (L1 & I1 & T1 & P1).
+    replace (done ++ (a, b) :: rest) with ((done ++ [(a, b)]) ++ rest) by (rewrite <- app_assoc; reflexivity).
+    apply (IH st1 (done ++ [(a, b)])); auto.
+    apply Forall_app. split; auto. constructor; [split; auto| constructor].
+Qed.
+
+Lemma uf_init_facts : forall n, length (uf_init n) = n /\ total (uf_init n) /\ part_inv n (uf_init n) [].
+Proof.
+  intros n.
+  assert (HL : length (uf_init n) = n) by (unfold uf_init; rewrite map_length, seq_length; reflexivity).
+  assert (Hp : forall i, i < n -> uparent (uf_init n) i = i).
+  { intros i Hi. unfold uparent, uget, uf_init.
+    rewrite nth_indep with (d' := (fun i => (0, i)) 0) by (rewrite map_length, seq_length; lia).
+    rewrite map_nth, seq_nth by lia. reflexivity. }
+  split; auto. split.
+  - intros i Hi. exists i. apply RO_root; auto. apply Hp. lia.
+  - intros x y Hx Hy. split.
+    + intros (r & H1 & H2).
+      assert (forall i, i < n -> forall r, root_of (uf_init n) i r -> r = i).
+      { intros i Hi r0 H. inversion H; subst; auto. rewrite Hp in *; auto; congruence. }
+      rewrite (H x Hx r H1) in *. rewrite (H y Hy _ H2). apply EQ_refl; auto.
+    + intros H.
+      assert (E : x = y) by (clear Hx Hy; induction H; auto; [destruct H| congruence]).
+      subst. exists y. split; apply RO_root; try lia; apply Hp; auto.
+Qed.
+
+(* sequential DisjointSets: whenever the run returns (fuel n+1 per find), the
+   (rank, id) order holds and two elements have the same root exactly when they
+   are related by the equivalence closure of the united pairs *)
+Theorem uf_seq_partition : forall n pairs st,
+    Forall (valid n) pairs -> uf_run_seq n pairs = Some st ->
+    length st = n /\ ord_inv st /\
+    forall a b, a < n -> b < n -> (same st a b <-> uf_equiv n pairs a b).
+Proof.
+  intros n pairs st Hv Hrun. unfold uf_run_seq in Hrun.
+  destruct (uf_init_facts n) as (HL & HT & HP).
+  apply (uf_run_inv n (S n) pairs (uf_init n) [] st); auto. apply ord_inv_init.
+Qed.
+
+(* ====================================================================
+   src/hashtable.h  HashTableD::Insert / operator[] on the key array.
+   keys_[s] = None is kOpen.  h K is H(key) & (Size-1); probe i of key K is
+   slot (h K + i*step) mod m.  The only shared write to keys_ is the strong
+   CAS kOpen -> key ([ht_claim]); a slot never changes again.  Values are
+   written by the claiming Insert only and are not modelled. *)
+Section HashTable.
+  Variable m : nat.                  (* Size(), a power of two in the C++ *)
+  Variable h : nat -> nat.
+  Variable step : nat.
+  Definition ht := list (option nat).
+  Definition probe (K i : nat) : nat := (h K + i * step) mod m.
+  Definition slot (t : ht) (s : nat) : option nat := nth s t None.
+
+  (* every stored key sits at the first slot of its probe sequence that was not
+     taken by another key *)
+  Definition ht_inv (t : ht) : Prop :=
+    length t = m /\
+    forall s K, s < m -> slot t s = Some K ->
+      exists j, probe K j = s /\ forall i, i < j -> exists K', slot t (probe K i) = Some K' /\ K' <> K.
+
+  (* a successful CAS by any thread running Insert(K): it has seen probes 0..j-1
+     occupied by other keys (slots never change once taken) and finds probe j open *)
+  Inductive ht_claim (t : ht) : ht -> Prop :=
+  | Claim : forall K j,
+      probe K j < m -> slot t (probe K j) = None ->
+      (forall i, i < j -> exists K', slot t (probe K i) = Some K' /\ K' <> K) ->
+      ht_claim t (set_nth (probe K j) (Some K) t).
+
+  Lemma slot_set : forall t b x s, b < length t -> slot (set_nth b x t) s = if s =? b then x else slot t s.
+  Proof. intros. unfold slot. apply nth_set_nth; auto. Qed.
+
+  Lemma ht_claim_preserves : forall t t', ht_inv t -> ht_claim t t' -> ht_inv t'.
+  Proof.
+    intros t t' [HL Hinv] Hc. destruct Hc as [K j Hlt Hopen Hprev].
+    split; [rewrite length_set_nth; lia|].
+    intros s K2 Hs Hk. rewrite slot_set in Hk by lia.
+    destruct (s =? probe K j) eqn:E.
+    - apply Nat.eqb_eq in E. injection Hk as <-. exists j. split; auto.
+      intros i Hi. destruct (Hprev i Hi) as (K' & HK' & Hne). exists K'. split; auto.
+      rewrite slot_set by lia. destruct (probe K i =? probe K j) eqn:E2; auto.
+      apply Nat.eqb_eq in E2. rewrite E2 in HK'. congruence.
+    - destruct (Hinv s K2 Hs Hk) as (j2 & Hp & Hprev2). exists j2. split; auto.
+      intros i Hi. destruct (Hprev2 i Hi) as (K' & HK' & Hne). exists K'. split; auto.
+      rewrite slot_set by lia. destruct (probe K2 i =? probe K j) eqn:E2; auto.
+      apply Nat.eqb_eq in E2. rewrite E2 in HK'. congruence.
+  Qed.
+
+  (* each key is claimed by at most one slot *)
+  Lemma ht_key_unique : forall t s1 s2 K, ht_inv t -> s1 < m -> s2 < m ->
+      slot t s1 = Some K -> slot t s2 = Some K -> s1 = s2.
+  Proof.
+    intros t s1 s2 K [_ Hinv] H1 H2 K1 K2.
+    destruct (Hinv s1 K H1 K1) as (j1 & P1 & Q1). destruct (Hinv s2 K H2 K2) as (j2 & P2 & Q2).
+    destruct (Nat.lt_trichotomy j1 j2) as [L|[L|L]].
+    - destruct (Q2 j1 L) as (K' & HK' & Hne). rewrite P1, K1 in HK'. congruence.
+    - subst. congruence.
+    - destruct (Q1 j2 L) as (K' & HK' & Hne). rewrite P2, K2 in HK'. congruence.
+  Qed.
+
+  (* operator[] : walk the probe sequence until the key or an open slot *)
+  Fixpoint ht_find (fuel : nat) (t : ht) (K i : nat) : option nat :=
+    match fuel with
+    | O => None
+    | S fu => match slot t (probe K i) with
+              | None => Some (probe K i)
+              | Some K' => if K' =? K then Some (probe K i) else ht_find fu t K (S i)
+              end
+    end.
+
+  Lemma ht_find_present_aux : forall t K j, (forall i, i < j -> exists K', slot t (probe K i) = Some K' /\ K' <> K) ->
+      slot t (probe K j) = Some K ->
+      forall d i fuel, i + d = j -> d < fuel -> ht_find fuel t K i = Some (probe K j).
+  Proof.
+    intros t K j Hprev Hk. induction d as [|d IH]; intros i fuel Hij Hf; (destruct fuel as [|fu]; [lia|]); cbn [ht_find].
+    - rewrite Nat.add_0_r in Hij. subst i. rewrite Hk, Nat.eqb_refl. reflexivity.
+    - destruct (Hprev i) as (K' & HK' & Hne); [lia|]. rewrite HK'.
+      destruct (K' =? K) eqn:E; [apply Nat.eqb_eq in E; congruence|]. apply IH; lia.
+  Qed.
+
+  (* a stored key is found, at its slot *)
+  Lemma ht_find_present : forall t s K, ht_inv t -> s < m -> slot t s = Some K ->
+      exists fuel, ht_find fuel t K 0 = Some s.
+  Proof.
+    intros t s K [HL Hinv] Hs Hk. destruct (Hinv s K Hs Hk) as (j & Hp & Hprev).
+    exists (S j). rewrite <- Hp. apply (ht_find_present_aux t K j Hprev) with (d := j); try lia. rewrite Hp. exact Hk.
+  Qed.
+
+  (* Insert as one thread executes it (no CAS fails): used = used_ before the call *)
+  Fixpoint ht_insert_loop (fuel : nat) (t : ht) (K i : nat) : option (ht * bool) :=
+    match fuel with
+    | O => None
+    | S fu => match slot t (probe K i) with
+              | None => Some (set_nth (probe K i) (Some K) t, true)      (* found == kOpen: claimed *)
+              | Some K' => if K' =? K then Some (t, false) else ht_insert_loop fu t K (S i)
+              end
+    end.
+  Definition ht_insert (fuel : nat) (t : ht) (used K : nat) : option (ht * nat) :=
+    if m <? used * 2 then Some (t, used)         (* Full() *)
+    else match ht_insert_loop fuel t K 0 with
+         | Some (t', claimed) => Some (t', if claimed then S used else used)
+         | None => None
+         end.
+
+  Lemma ht_insert_loop_spec : forall fuel t K i t' c, ht_inv t -> 0 < m ->
+      (forall i', i' < i -> exists K', slot t (probe K i') = Some K' /\ K' <> K) ->
+      ht_insert_loop fuel t K i = Some (t', c) ->
+      ht_inv t' /\ exists s, s < m /\ slot t' s = Some K.
+  Proof.
+    induction fuel as [|fu IH]; intros t K i t' c Hinv Hm Hprev Hrun; [discriminate|].
+    cbn [ht_insert_loop] in Hrun. pose proof Hinv as [HL _].
+    assert (Hlt : probe K i < m) by (unfold probe; apply Nat.mod_upper_bound; lia).
+    destruct (slot t (probe K i)) as [K'|] eqn:Hs.
+    - destruct (K' =? K) eqn:E.
+      + apply Nat.eqb_eq in E. subst K'. injection Hrun as <- <-. split; auto. eauto.
+      + apply Nat.eqb_neq in E. apply (IH t K (S i) t' c); auto.
+        intros i' Hi'. destruct (Nat.eq_dec i' i) as [->|]; [eauto| apply Hprev; lia].
+    - injection Hrun as <- <-. split.
+      + apply ht_claim_preserves with (t := t); auto. apply Claim; auto.
+      + exists (probe K i). split; auto. rewrite slot_set by lia. rewrite Nat.eqb_refl. reflexivity.
+  Qed.
+End HashTable.
+
+(* a sequence of Inserts by one thread, from the empty table *)
+Fixpoint ht_run (m : nat) (h : nat -> nat) (step fuel : nat) (t : ht) (used : nat) (ks : list nat) : option (ht * nat) :=
+  match ks with
+  | [] => Some (t, used)
+  | K :: r => match ht_insert m h step fuel t used K with
+              | Some (t', u') => ht_run m h step fuel t' u' r
+              | None => None
+              end
+  end.
